@@ -57,10 +57,9 @@ def check(col: Collector, tier: str):
             if truth and isinstance(t, ast.Compare) and src(t.left) == "len(self.files)" and isinstance(t.ops[0], ast.Eq) \
                     and src(t.comparators[0]) == "0":
                 empty_ok = True
-            if truth and isinstance(t, ast.UnaryOp) and isinstance(t.op, ast.Not) and isinstance(t.operand, ast.Call) \
-                    and call_name(t.operand) == "exists":
+            if (not truth) and isinstance(t, ast.Call) and call_name(t) == "exists":
                 loops = enclosing(init.node, r, (ast.For,), pm)
-                if loops and src(loops[0].iter) == "self.files" and src(t.operand.func.value) == src(loops[0].target):
+                if loops and src(loops[0].iter) == "self.files" and src(t.func.value) == src(loops[0].target):
                     missing_ok = True
     col.add("C17.R1", init.short, "empty-file-list-raises", empty_ok, "an empty file list must raise in the constructor", init.loc)
     col.add("C17.R1", init.short, "missing-file-raises", missing_ok,
@@ -164,11 +163,26 @@ def check(col: Collector, tier: str):
 
     # every docker metadata block of the query reaches extended_md("docker"), in query order (the last one wins)
     pmd = repo.function("process_metadata")
-    ebr = [n for n in ast.walk(pmd.node) if isinstance(n, ast.If) and isinstance(n.test, ast.Compare) and isinstance(n.test.ops[0], ast.In)
-           and src(n.test.left) == "md_type" and src(n.test.comparators[0]) == pmd.node.args.args[1].arg]
-    if len(ebr) != 1:
-        raise AnalysisError("process_metadata: extended-metadata branch not found")
-    fake = ast.FunctionDef(name="_", args=pmd.node.args, body=ebr[0].body, decorator_list=[], lineno=ebr[0].lineno)
+    # the extended branch: the statements from `copy(<prototypes>[md_type])` to the end of their block, reached only when md_type is a
+    # registered extended type (however that test is spelled: elif ... in, or a guard clause raising on `not in`)
+    ep = pmd.node.args.args[1].arg
+    pmp = parent_map(pmd.node)
+    cps = [c for c in ast.walk(pmd.node) if isinstance(c, ast.Call) and call_name(c) == "copy" and f"{ep}[md_type]" in src(c)]
+    if len(cps) != 1:
+        raise AnalysisError("process_metadata: extended-metadata branch not found (no single copy(<prototypes>[md_type]))")
+    st0 = cps[0]
+    while st0 in pmp and not isinstance(st0, ast.stmt):
+        st0 = pmp[st0]
+    blk = None
+    for fld in ("body", "orelse", "finalbody"):
+        lst = getattr(pmp.get(st0), fld, None)
+        if isinstance(lst, list) and st0 in lst:
+            blk = lst[lst.index(st0):]
+    under = any(tr_ and isinstance(t, ast.Compare) and isinstance(t.ops[0], ast.In) and src(t.left) == "md_type" and src(t.comparators[0]) == ep
+                for t, tr_ in guards(pmd.node, st0, pmp))
+    if blk is None or not under:
+        raise AnalysisError("process_metadata: extended-metadata branch not found (copy not under `md_type in <prototypes>`)")
+    fake = ast.FunctionDef(name="_", args=pmd.node.args, body=blk, decorator_list=[], lineno=st0.lineno)
     eps = enumerate_paths(fake, unroll=1)
     ok = bool(eps) and all(p.status == "end" and any(e.kind == "call" and call_name(e.node) == "append" and src(e.node.func.value) == "cpp_funcs"
                                                       for e in p.events) for p in eps)
